@@ -6,6 +6,7 @@ import BqVerif.Proofs.QasmAccept
 import BqVerif.Proofs.QasmSubst
 import BqVerif.Proofs.QasmInline
 import BqVerif.Proofs.QasmPrintParse
+import BqVerif.Proofs.QasmClean
 import BqVerif.Proofs.QasmWitness
 import BqVerif.Generated.QasmTable
 import BqVerif.Proofs.QasmTableChecks
@@ -365,6 +366,49 @@ theorem C17_if_witness :
     (decodeToks intArith tinyTable (hdrToks ++ qregToks "q" 1 ++ [.id "h"] ++
         qb "q" 0 ++ [.sym ";"])).map Decoded.summary = hOnQ0 := by
   constructor <;> decide
+
+/-! ## C17_clean_program — whole programs -/
+
+/- Full strength (FALSE of the code): for every program of the subset, the reader computes the
+   reference elaboration `specDecodeToks` (`Model/QasmSpec.lean`: expressions read with their
+   parentheses and all functions, formals bound, indices checked against their register,
+   lists of registers read element-wise, `reset`/`measure` on the named register, `if`
+   rejected).  Each `_witness` theorem of this file is a counterexample. -/
+/-- **On a clean program the reader computes the reference elaboration.**  Clean
+(`CleanProgram`, `CleanStmt`, `CleanCall`, `CleanExpr`): every parameter expression is free of
+parenthesised sub-expressions and of `sqrt`/`exp`; constant expressions in gate bodies
+evaluate; every value handed to a user gate, at any depth, prints without a sign
+(`nonNegS`); argument lists have at most one leading whole register; `reset name;` and
+`measure name[i] -> c[j];` name the first register; and the program has no `if` (the reference
+rejects it).  Nothing is assumed about nesting depth, number of registers or gate table.
+The reference elaboration itself is compared with the independent Python reference on every
+generated program of the run (`spec` leg). -/
+theorem C17_clean_program_partial {V : Type} (A : Arith V) (table : List BuiltinDef)
+    (ts : List Tok) (d : Decoded V) (hc : CleanProgram A table ts)
+    (h : specDecodeToks A table ts = some d) : decodeToks A table ts = some d :=
+  decode_clean A table ts d hc h
+
+/-- non-vacuity: `OPENQASM 2.0; qreg q[2]; h q[1]; cx q[0],q[1];` is clean and has a meaning -/
+example : CleanProgram intArith tinyTable
+      (hdrToks ++ qregToks "q" 2 ++ [.id "h"] ++ qb "q" 1 ++ [.sym ";", .id "cx"] ++ qb "q" 0 ++
+        [.sym ","] ++ qb "q" 1 ++ [.sym ";"]) ∧
+    (specDecodeToks intArith tinyTable
+      (hdrToks ++ qregToks "q" 2 ++ [.id "h"] ++ qb "q" 1 ++ [.sym ";", .id "cx"] ++ qb "q" 0 ++
+        [.sym ","] ++ qb "q" 1 ++ [.sym ";"])).isSome = true := by
+  refine ⟨⟨_, rfl, ?_⟩, by decide⟩
+  refine .cons trivial rfl (.cons ?_ rfl (.cons ?_ rfl (.nil _)))
+  · refine ⟨by simp, by unfold leadBareOk; decide, ?_⟩
+    intro gs vs hl _
+    simp only [SSt.lookup, lookupBuiltin, tinyTable, List.find?] at hl
+    simp at hl
+    subst hl
+    rfl
+  · refine ⟨by simp, by unfold leadBareOk; decide, ?_⟩
+    intro gs vs hl _
+    simp only [SSt.lookup, lookupBuiltin, tinyTable, List.find?] at hl
+    simp at hl
+    subst hl
+    rfl
 
 /-! ## C17_print_parse — the writer's format is read back -/
 
